@@ -178,7 +178,10 @@ def spherical_conformal_map(tria, use_cholmod=False):
             mapping = P  # use the old result
 
     # inverse south pole stereographic projection
+    # (the south pole projection x / (1 + z) is inverted by the north pole formula
+    # with the sign of the z-coordinate reversed)
     mapping = inverse_stereographic(mapping)
+    mapping[:, 2] = -mapping[:, 2]
     return mapping
 
 
